@@ -408,8 +408,15 @@ static Outcome runStartup(const KV& c)
         // does not satisfy it (e.g. the across-origin closure with a hole that is not tiny, rho ~ 0.67) are counted,
         // not judged (DESIGN.md 10.1).
         const double rho = f->meanResidualReductionFactor();
-        const bool theorem_applies = einf.has_value() && f->numberOfIterations() < 60 && f->numberOfIterations() >= 2 &&
+        // One-sided smoothing (0 pre- or 0 post-smoothing steps, drawn since round 9 of the seeded changes) is judged by the
+        // equality with the reference nested iteration only: the reduction factor measured on the finest level in the
+        // asymptotic regime says little about what V(0,1) cycles do to a freshly interpolated approximation on the coarse
+        // levels (observed: start error 91 x discretisation error with rho^its = 0.17; DESIGN.md 10.1).
+        const bool two_sided       = cfg.pre >= 1 && cfg.post >= 1;
+        const bool theorem_applies = two_sided && einf.has_value() && f->numberOfIterations() < 60 && f->numberOfIterations() >= 2 &&
                                      std::isfinite(rho) && std::pow(rho, cfg.fmg_its) <= 0.2;
+        if (!two_sided)
+            o.cls("accuracy_not_judged_one_sided_smoothing");
         if (einf.has_value() && f->numberOfIterations() < 60 && !theorem_applies)
             o.cls("accuracy_outside_fmg_theorem");
         if (theorem_applies) {
